@@ -163,13 +163,17 @@ def print_assumptions(pid, names):
     return res, ""
 
 
-FORBIDDEN = re.compile(r"\b(Admitted|admit|Axiom|Axioms|Parameter|Parameters|Conjecture|Hypothesis|"
+FORBIDDEN = re.compile(r"\b(Admitted|admit|Axiom|Axioms|Parameter|Parameters|Conjecture|Conjectures|"
                        r"Admit Obligations|Unset Guard Checking|Unset Positivity Checking|"
-                       r"Unset Universe Checking|bypass_check|type-in-type|impredicative-set)\b")
+                       r"Unset Universe Checking|bypass_check|type-in-type|impredicative-set|"
+                       r"Guard Checking|Positivity Checking|Universe Checking)\b")
+SECTION_LOCAL = re.compile(r"^\s*(?:Local\s+|Global\s+)?(Variable|Variables|Hypothesis|Hypotheses|Context)\b")
 
 
 def forbidden_scan():
-    """grep of the whole development for declarations / switches that are not allowed."""
+    """grep of the whole development for declarations / switches that are not allowed.
+    Variable / Hypothesis / Context are allowed inside a Section only (there they are ordinary
+    lambda-abstractions once the section is closed); outside they would declare axioms."""
     hits = []
     for root, _, files in os.walk(COQ):
         for fn in files:
@@ -177,12 +181,20 @@ def forbidden_scan():
                 continue
             p = os.path.join(root, fn)
             src = open(p).read()
-            nocom = re.sub(r"\(\*.*?\*\)", lambda m_: " " * len(m_.group(0)), src, flags=re.S)
+            nocom = re.sub(r"\(\*.*?\*\)", lambda m_: re.sub(r"[^\n]", " ", m_.group(0)), src, flags=re.S)
             for m_ in FORBIDDEN.finditer(nocom):
-                word = m_.group(1)
-                # `Variable`/`Hypothesis` inside a Section are fine; we simply do not use Hypothesis
                 line = nocom.count("\n", 0, m_.start()) + 1
-                hits.append("%s:%d: %s" % (os.path.relpath(p, VERIF), line, word))
+                hits.append("%s:%d: %s" % (os.path.relpath(p, VERIF), line, m_.group(1)))
+            depth = 0
+            for ln, text in enumerate(nocom.split("\n"), 1):
+                if re.match(r"^\s*Section\s+\w+\s*\.", text):
+                    depth += 1
+                elif re.match(r"^\s*End\s+\w+\s*\.", text):
+                    depth = max(0, depth - 1)
+                else:
+                    m_ = SECTION_LOCAL.match(text)
+                    if m_ and depth == 0:
+                        hits.append("%s:%d: %s outside a section" % (os.path.relpath(p, VERIF), ln, m_.group(1)))
     return hits
 
 
